@@ -42,45 +42,56 @@ def run_arm_unit(unit, tag, spec_files, arms, default_props, id_prefix=None, ext
             return [], dict(assumptions=[], trusted_base=[], checker_cmds=[], notes={})
     sc = E.Scratch(tag)
     try:
-        text = vmenv.prelude(spec_files) + extra_items + "\nimpl VmGreenThread {\n"
-        meta = {}
         counts = {'R2': 0, 'R3': 0, 'custom': 0, 'proof_splices': 0}
         undecided_arms = {}
-        for name, o in arms.items():
-            try:
-                arm = S.step_arm(name)
-                body = arm['body']
-                body, k = vmenv.apply_R2(body)
-                counts['R2'] += k
-                if o.get('store'):
-                    body, k = vmenv.apply_R3(body, o['store'])
-                    counts['R3'] += k
-                for rx, repl, want in o.get('rewrites', []):
-                    body, k = re.subn(rx, repl, body, flags=re.S)
-                    counts['custom'] += k
-                    if want is not None and k != want:
-                        raise S.SliceError("arm %s: rewrite /%s/ applied %d times, expected %d" % (name, rx, k, want))
-                if o.get('start_proof'):
-                    body = "\n                proof { %s }" % o['start_proof'] + body
-                    counts['proof_splices'] += 1
-            except S.SliceError as ex:
-                undecided_arms[name] = str(ex)
-                continue
-            a2 = dict(arm)
-            a2['body'] = body
-            text += "// ---- real arm Instr::%s (vm.rs step), lifted ----\n" % name
-            text += vmenv.lift(a2, o['contract'])
-            meta[name] = dict(contract=o['contract'], sha=S.sha(arm['raw']))
-        text += "}\n" + vmenv.EPILOGUE
-        text, k = vmenv.strip_vis(text)
-        counts['R0'] = k
-        res = E.run_verus(sc.file(tag + ".rs", text))
+        meta = {}
+
+        def build(exclude):
+            text = vmenv.prelude(spec_files) + extra_items + "\nimpl VmGreenThread {\n"
+            for k in counts:
+                counts[k] = 0
+            for name, o in arms.items():
+                if name in exclude:
+                    continue
+                try:
+                    arm = S.step_arm(name)
+                    body = arm['body']
+                    body, k = vmenv.apply_R2(body)
+                    counts['R2'] += k
+                    if o.get('store'):
+                        body, k = vmenv.apply_R3(body, o['store'])
+                        counts['R3'] += k
+                    for rx, repl, expect in o.get('rewrites', []):
+                        body, k = re.subn(rx, repl, body, flags=re.S)
+                        counts['custom'] += k
+                        if expect is not None and k != expect:
+                            raise S.SliceError("arm %s: rewrite /%s/ applied %d times, expected %d" % (name, rx, k, expect))
+                    if o.get('start_proof'):
+                        body = "\n                proof { %s }" % o['start_proof'] + body
+                        counts['proof_splices'] += 1
+                except S.SliceError as ex:
+                    undecided_arms[name] = str(ex)
+                    continue
+                a2 = dict(arm)
+                a2['body'] = body
+                text += "// ---- real arm Instr::%s (vm.rs step), lifted ----\n" % name
+                text += vmenv.lift(a2, o['contract'])
+                meta[name] = dict(contract=o['contract'], sha=S.sha(arm['raw']))
+            text += "}\n" + vmenv.EPILOGUE
+            text, k = vmenv.strip_vis(text)
+            counts['R0'] = k
+            return text
+
+        text, res, excluded = vmenv.verify_isolating(build, set(arms), sc, tag + ".rs")
+        undecided_arms.update(excluded)
         lines = E.fn_line_ranges(text)
         errs = {}
         for e in res['errors']:
             fn = lines[e['line'] - 1] if e['line'] and e['line'] <= len(lines) else None
             errs.setdefault(fn, []).append(e['block'])
         cres = E.run_verus(sc.file(tag + "_canary.rs", canary_text(text)))
+        for name in undecided_arms:
+            meta.setdefault(name, dict(contract=arms[name]['contract'], sha=""))
         obs = []
         vac = []
         for name, o in arms.items():
